@@ -133,6 +133,29 @@ def _(n, i):
     return Implies_(And_(n >= 0, 0 <= i, i < L), eq(at(subid(n), i), q128(n, L - 1 - i) % 128 + If_(i < L - 1, 128, 0)))
 
 
+# ---- concatenated sub-identifiers of a list of arcs --------------------------------------------------------------------
+# oid_body(l) = subid(l[0]) ++ subid(l[1]) ++ ...   Defined by the right-extension equation (oid_body_app); the
+# left-extension equation (oid_body_cons) is the fold-left = fold-right lemma for concatenation, taken as given (tested against
+# CPython with the other axioms).
+OID_BODY = z3.Function("oid_body", sym.IntList, sym.Bytes)
+
+
+def oid_body(l):
+    if isinstance(l, sym.SIntList):
+        return SBytes(OID_BODY(l.t))
+    return b"".join(subid(v) for v in l)
+
+
+@axiom("oid_body_app", ["list", "int"], lambda l, v: [oid_body(sym.lapp(l, v))])
+def _(l, v):
+    return beq(oid_body(sym.lapp(l, v)), cat(oid_body(l), subid(v)))
+
+
+@axiom("oid_body_cons", ["int", "list"], lambda v, l: [oid_body(sym.lcons(v, l))])
+def _(v, l):
+    return beq(oid_body(sym.lcons(v, l)), cat(subid(v), oid_body(l)))
+
+
 def enc_oid(arcs):
     first, second = arcs[0], arcs[1]
     body = subid(40 * first + second) + b"".join(subid(a) for a in arcs[2:])
